@@ -561,9 +561,15 @@ func servePeer(run *dialRun, ci int, c net.Conn, pc *peerCfg) {
 			if _, err := c.Write(out); err != nil {
 				return
 			}
-			if cut >= 0 {
-				// the complete raw reply was sent: the proxy then closes unless the
-				// client goes on (it may, if the reply was a well-formed 200)
+			if pc.creply.Mode == "raw" {
+				// A scripted peer never stalls: after a raw reply the proxy has said
+				// everything and half-closes (the client sees EOF, not silence).
+				if cw, ok := c.(interface{ CloseWrite() error }); ok {
+					cw.CloseWrite()
+				} else {
+					c.Close()
+					return
+				}
 			}
 			tunnel = true
 		case b[0] == 'G':
@@ -955,6 +961,15 @@ func (c *qconn) Close() error {
 	c.in.closed = true
 	c.in.signal()
 	c.in.mu.Unlock()
+	return nil
+}
+
+// CloseWrite half-closes: the other side reads EOF after the queued bytes.
+func (c *qconn) CloseWrite() error {
+	c.out.mu.Lock()
+	c.out.closed = true
+	c.out.signal()
+	c.out.mu.Unlock()
 	return nil
 }
 
